@@ -305,6 +305,16 @@ func init() {
 		in := fr.i
 		return in.mkSym(in.pool.Ite(in.term(args[0]), in.term(args[1]), in.term(args[2])), types.Int64)
 	}
+	harnessAPI["vFloatSame"] = func(fr *frame, args []value) value {
+		// x == y, or both NaN; identical terms are the same float by construction
+		in := fr.i
+		a, b := in.term(args[0]), in.term(args[1])
+		if a == b {
+			return true
+		}
+		p := in.pool
+		return in.mkSym(p.Or(p.Bin(opFEq, a, b), p.And(p.Un(opFIsNaN, a), p.Un(opFIsNaN, b))), types.Bool)
+	}
 	harnessAPI["vIsSymbolic"] = func(fr *frame, args []value) value {
 		return isSymbolicValue(args[0])
 	}
